@@ -115,7 +115,7 @@ def selRun (ns : List (Cps × Cps)) (toks : List Sel.Tok) : Outcome :=
 
 /-- `MediaList.mediaText = tokens`; `.wellformed` (`medialist.py:109-127`: a list without a query is refused) -/
 def mediaRun (toks : List Media.Tok) : Outcome :=
-  match Media.parseL false false {} toks with
+  match Media.parseL true false {} toks with
   | .ok items => .ok (!(Media.queries items).isEmpty)
   | .bad => .ok false
   | .unsupported => .unsupported
